@@ -974,6 +974,10 @@ class state( dict ):
                     xformed	= list( enumerate( encoder( sym )))
                     assert len( xformed ) > 0
                     #log.debug( "%s <- %-10.10r: Encoded to %r", states[pre].name_centered(), sym, xformed )
+                    if len( xformed ) > 1 and states.get( nxt ) is None and states[pre].get( True ) is None:
+                        # A multi-byte symbol leading only to a "dead" state, and no live wildcard: no
+                        # symbol beginning with its first byte is acceptable; refuse at the first byte.
+                        xformed	= xformed[:1]
                     if len( xformed ) > 1:
                         assert ( 1 <= len( machine.map[pre] ) <= 2 ), \
                             "Can only expand 1 (symbol) or 2 (symbol/anychar) transitions: %r" % (
